@@ -139,8 +139,43 @@ PROBE = "0123456789$_aZ \"'`[]%#@-.é"
 
 def apply_op(c: Ctx, d):
     """Runs one op description on the real code; returns (records, exception-or-None).
-    records: list of (construct object, emitted text with the '\\n\\n'/batch separator suffix removed)."""
+    records: list of (construct object, emitted text with the '\\n\\n'/batch separator suffix removed).
+    {"op": "seq", "ops": [...]}: the operations are emitted one after the other in ONE FRESH MigrationContext
+    (state such as caches carries over from one to the next); use `apply_seq` to know which op wrote what."""
+    if d.get("op") == "seq":
+        out, err = apply_seq(c.dialect_name, d["ops"])
+        return [(el, em, raw) for _, el, em, raw in out], err
     c.reset()
+    return _finish(c, 0, _run_one(c, d))
+
+
+def apply_seq(dialect, descs):
+    """-> ([(index of the op, construct, emitted, raw)], first exception or None); a fresh context per sequence"""
+    c = Ctx(dialect)
+    c.reset()
+    out = []
+    first_err = None
+    for i, d in enumerate(descs):
+        n0 = len(c.records)
+        err = _run_one(c, d)
+        recs, _ = _finish(c, n0, None)
+        out.extend((i, el, em, raw) for el, em, raw in recs)
+        if err is not None and first_err is None:
+            first_err = err
+    return out, first_err
+
+
+def _finish(c, start, err):
+    out = []
+    for construct, text in c.records[start:]:
+        if not text.endswith(c.suffix):
+            out.append((construct, None, text))
+        else:
+            out.append((construct, text[: len(text) - len(c.suffix)], text))
+    return out, err
+
+
+def _run_one(c: Ctx, d):
     op = c.op
     kind = d["op"]
     err = None
@@ -189,13 +224,7 @@ def apply_op(c: Ctx, d):
                 raise ValueError("unknown op " + kind)
     except Exception as e:  # noqa
         err = e
-    out = []
-    for construct, text in c.records:
-        if not text.endswith(c.suffix):
-            out.append((construct, None, text))
-        else:
-            out.append((construct, text[: len(text) - len(c.suffix)], text))
-    return out, err
+    return err
 
 
 def apply_generic(op, d):
